@@ -224,7 +224,7 @@ class Interp:
         e = strip_expect(e)
         k = e["k"]
         c = cv(e)
-        if c is not None and k in ("int", "sizeof", "cast", "un", "bin", "cond") and not self._has_ref(e):
+        if c is not None and k in ("int", "sizeof", "offsetof", "cast", "un", "bin", "cond") and not self._has_ref(e):
             return ("int", c)
         if k == "int":
             return ("int", e.get("v", 0))
